@@ -209,7 +209,9 @@ pub struct SimResolver {
     /// byzantine peer: the first Dh object handed out (the static key of Builder::build) reports
     /// a public key that is not a valid curve point
     evil_static_pub: bool,
-    dh_calls: std::sync::atomic::AtomicUsize,
+    /// 0 = deny every request of the denied kind; k = only the k-th
+    deny_at: u8,
+    calls: [std::sync::atomic::AtomicUsize; 4],
 }
 
 /// A Dh that behaves normally except that pubkey() is corrupted in its last byte.
@@ -284,26 +286,40 @@ impl SimResolver {
         record: Option<(u8, SharedCipherLog)>,
         deny: Option<Prim>,
     ) -> Self {
-        SimResolver { inner: backend_resolver(backend), rng, record, deny, evil_static_pub: false, dh_calls: std::sync::atomic::AtomicUsize::new(0) }
+        SimResolver { inner: backend_resolver(backend), rng, record, deny, evil_static_pub: false, deny_at: 0, calls: Default::default() }
     }
     pub fn with_evil_static_pub(mut self, evil: bool) -> Self {
         self.evil_static_pub = evil;
         self
     }
+    pub fn with_deny_at(mut self, k: u8) -> Self {
+        self.deny_at = k;
+        self
+    }
+    /// is this request for primitive `p` refused?
+    fn denied(&self, p: Prim) -> bool {
+        let slot = match p {
+            Prim::Rng => 0,
+            Prim::Dh => 1,
+            Prim::Hash => 2,
+            Prim::Cipher => 3,
+        };
+        let nth = self.calls[slot].fetch_add(1, std::sync::atomic::Ordering::Relaxed) + 1;
+        self.deny == Some(p) && (self.deny_at == 0 || self.deny_at as usize == nth)
+    }
 }
 
 impl CryptoResolver for SimResolver {
     fn resolve_rng(&self) -> Option<Box<dyn Random>> {
-        if self.deny == Some(Prim::Rng) {
+        if self.denied(Prim::Rng) {
             return None;
         }
         Some(Box::new(SimRng(self.rng.clone())))
     }
     fn resolve_dh(&self, choice: &DHChoice) -> Option<Box<dyn Dh>> {
-        if self.deny == Some(Prim::Dh) {
+        if self.denied(Prim::Dh) {
             return None;
         }
-        let _ = self.dh_calls.fetch_add(1, std::sync::atomic::Ordering::Relaxed);
         let d = self.inner.resolve_dh(choice)?;
         if self.evil_static_pub {
             // whichever object later receives the static key through set() announces a corrupted
@@ -313,13 +329,13 @@ impl CryptoResolver for SimResolver {
         Some(d)
     }
     fn resolve_hash(&self, choice: &HashChoice) -> Option<Box<dyn Hash>> {
-        if self.deny == Some(Prim::Hash) {
+        if self.denied(Prim::Hash) {
             return None;
         }
         self.inner.resolve_hash(choice)
     }
     fn resolve_cipher(&self, choice: &CipherChoice) -> Option<Box<dyn Cipher>> {
-        if self.deny == Some(Prim::Cipher) {
+        if self.denied(Prim::Cipher) {
             return None;
         }
         let c = self.inner.resolve_cipher(choice)?;
